@@ -253,21 +253,19 @@ structure WFacts (proj : Project) (rank : List Nat) : Prop where
   uniqueLast : ((entities proj).map (fun S => (sitePath proj S).getLast?)).Nodup
   basesNe : ∀ {S b n bs body}, siteBody proj S = some b → Stmt.classDef n bs body ∈ b → ∀ p ∈ bs, p ≠ []
   nostar : ∀ {S b lvl M}, siteBody proj S = some b → Stmt.importStar lvl M ∈ b → S.2 = []
-  noreexpStar : ∀ {m b lvl M}, siteBody proj (m, []) = some b → Stmt.importStar lvl M ∈ b → allNames (bodyOf proj m) = []
-  noreexpFrom : ∀ {m b lvl M n a}, siteBody proj (m, []) = some b → Stmt.importFrom lvl M n a ∈ b →
-    a.getD n ∉ allNames (bodyOf proj m)
   rootsStmt : ∀ {S b st x}, siteBody proj S = some b → st ∈ b → x ∈ explicitNames st → isRootName proj x = true →
     (∃ r, st = .importMod (x :: r) none) ∨ st = .importMod [x] (some x)
   rootsChild : ∀ m, m < proj.length → ∀ x ∈ childNames proj m, isRootName proj x = false
   namesOk : ∀ {S b st n}, siteBody proj S = some b → st ∈ b → st.defName = some n → isSupersededName n = false
 
-theorem WF.facts {proj : Project} {rank : List Nat} (h : WF proj rank = true) : WFacts proj rank := by
-  simp only [WF, Bool.and_eq_true] at h
-  obtain ⟨⟨⟨⟨⟨⟨⟨⟨⟨hmod, hpaths⟩, himp⟩, honce⟩, huniq⟩, hbne⟩, hns⟩, hnr⟩, hroots⟩, hnames⟩ := h
+theorem wfacts_of {proj : Project} {rank : List Nat} (hmod : modulesOk proj = true) (hpaths : pathsUnique proj = true)
+    (himp : importsOk proj rank = true) (honce : boundOnce proj rank = true) (huniq : namesUnique proj = true)
+    (hbne : basesNonempty proj = true) (hns : noStarInClass proj = true) (hroots : rootsReserved proj = true)
+    (hnames : namesOk proj = true) : WFacts proj rank := by
   simp only [modulesOk, Bool.and_eq_true, nodupB_iff, List.all_eq_true, List.mem_range] at hmod
   refine
     { modNodup := hmod.1, parentOk := ?_, pathsNodup := (nodupB_iff _).1 hpaths, targets := ?_, onceMod := ?_,
-      onceCls := ?_, uniqueLast := (nodupB_iff _).1 huniq, basesNe := ?_, nostar := ?_, noreexpStar := ?_, noreexpFrom := ?_, rootsStmt := ?_,
+      onceCls := ?_, uniqueLast := (nodupB_iff _).1 huniq, basesNe := ?_, nostar := ?_, rootsStmt := ?_,
       rootsChild := ?_, namesOk := ?_ }
   · intro m hm
     have := hmod.2 m hm
@@ -299,12 +297,6 @@ theorem WF.facts {proj : Project} {rank : List Nat} (h : WF proj rank = true) : 
   · intro S b lvl M hb hm
     have := allProj_spec hns hb hm
     simpa using this
-  · intro m b lvl M hb hm
-    have := allProj_spec hnr hb hm
-    simpa using this
-  · intro m b lvl M n a hb hm
-    have := allProj_spec hnr hb hm
-    simpa using this
   · intro S b st x hb hm hx hr
     simp only [rootsReserved, Bool.and_eq_true] at hroots
     have := allProj_spec hroots.1 hb hm
@@ -324,6 +316,28 @@ theorem WF.facts {proj : Project} {rank : List Nat} (h : WF proj rank = true) : 
   · intro S b st n hb hm hd
     have := allProj_spec hnames hb hm
     simpa [hd] using this
+
+theorem WF.facts {proj : Project} {rank : List Nat} (h : WF proj rank = true) : WFacts proj rank := by
+  simp only [WF, Bool.and_eq_true] at h
+  obtain ⟨⟨⟨⟨⟨⟨⟨⟨⟨hmod, hpaths⟩, himp⟩, honce⟩, huniq⟩, hbne⟩, hns⟩, hnr⟩, hroots⟩, hnames⟩ := h
+  exact wfacts_of hmod hpaths himp honce huniq hbne hns hroots hnames
+
+/-- what the restriction `noReexport` says (used only where `_handleReExport` could move something) -/
+structure NoReexpFacts (proj : Project) : Prop where
+  noreexpStar : ∀ {m b lvl M}, siteBody proj (m, []) = some b → Stmt.importStar lvl M ∈ b → allNames (bodyOf proj m) = []
+  noreexpFrom : ∀ {m b lvl M n a}, siteBody proj (m, []) = some b → Stmt.importFrom lvl M n a ∈ b →
+    a.getD n ∉ allNames (bodyOf proj m)
+
+theorem WF.noReexp {proj : Project} {rank : List Nat} (h : WF proj rank = true) : NoReexpFacts proj := by
+  simp only [WF, Bool.and_eq_true] at h
+  obtain ⟨⟨⟨_, hnr⟩, _⟩, _⟩ := h
+  constructor
+  · intro m b lvl M hb hm
+    have := allProj_spec hnr hb hm
+    simpa using this
+  · intro m b lvl M n a hb hm
+    have := allProj_spec hnr hb hm
+    simpa using this
 
 /-! ## names -/
 
@@ -2166,7 +2180,7 @@ theorem pdAbs_some {proj : Project} {rank : List Nat} (wf : WFacts proj rank) {S
     | none => simp [hr] at hT'
     | some b => exact ⟨_, rfl⟩
 
-theorem visitImportFrom_ok {proj : Project} {rank : List Nat} (wf : WFacts proj rank) {pm : St → Nat → St}
+theorem visitImportFrom_ok {proj : Project} {rank : List Nat} (wf : WFacts proj rank) (nr : NoReexpFacts proj) {pm : St → Nat → St}
     (hpm : PmOk proj pm) {s : St} (hI : PdInv proj s) {mod ctx : Nat} {S : Site} {full : List Stmt}
     (hc : Ctx proj s mod ctx S full) {lvl : Nat} {M : Path} {n : Name} {a : Option Name}
     (hst : Stmt.importFrom lvl M n a ∈ full) (hb : (visitImportFrom pm mod ctx lvl M n a s).bad = false) :
@@ -2221,7 +2235,7 @@ theorem visitImportFrom_ok {proj : Project} {rank : List Nat} (wf : WFacts proj 
         obtain ⟨hS2, hall⟩ := exports_sub hI1 hc he1 _ hmem
         obtain ⟨m, cp⟩ := S
         simp only at hS2 hS1; subst hS2; subst hS1
-        exact wf.noreexpFrom hc.body hst hall
+        exact nr.noreexpFrom hc.body hst hall
     rw [hre_noop hnox] at hb ⊢
     simp only [Bool.false_eq_true, if_false] at hb ⊢
     have hc2 := hc.ext he2
@@ -2327,7 +2341,7 @@ theorem starFold_ok {proj : Project} {rank : List Nat} (wf : WFacts proj rank)
     obtain ⟨hI2, he2⟩ := starFold_ok wf hst hT ht hu xs _ hI1 (hc.ext he1) hx' hb
     exact ⟨hI2, he1.trans he2⟩
 
-theorem visitImportStar_ok {proj : Project} {rank : List Nat} (wf : WFacts proj rank) {pm : St → Nat → St}
+theorem visitImportStar_ok {proj : Project} {rank : List Nat} (wf : WFacts proj rank) (nr : NoReexpFacts proj) {pm : St → Nat → St}
     (hpm : PmOk proj pm) {s : St} (hI : PdInv proj s) {mod ctx : Nat} {S : Site} {full : List Stmt}
     (hc : Ctx proj s mod ctx S full) {lvl : Nat} {M : Path}
     (hst : Stmt.importStar lvl M ∈ full) (hb : (visitImportStar pm mod ctx lvl M s).bad = false) :
@@ -2356,7 +2370,7 @@ theorem visitImportStar_ok {proj : Project} {rank : List Nat} (wf : WFacts proj 
         obtain ⟨hS2, hall⟩ := exports_sub hI1 hc he1 y (by rw [hce]; exact List.mem_cons_self ..)
         obtain ⟨m, cp⟩ := S
         simp only at hS2 hS1; subst hS2; subst hS1
-        rw [wf.noreexpStar hc.body hst] at hall; cases hall
+        rw [nr.noreexpStar hc.body hst] at hall; cases hall
     rw [hex] at hb ⊢
     have hnames : ∀ x ∈ starNames (getProcessedModule pm s T).1 t,
         starOk proj t x ∧ (x ∈ allNames (bodyOf proj t) ∨ HasEntry (getProcessedModule pm s T).1 t x) := by
@@ -2597,7 +2611,7 @@ theorem enterClass_ok {proj : Project} {rank : List Nat} (wf : WFacts proj rank)
 /-! ## a body -/
 
 mutual
-theorem visitStmt_ok {proj : Project} {rank : List Nat} (wf : WFacts proj rank) {pm : St → Nat → St}
+theorem visitStmt_ok {proj : Project} {rank : List Nat} (wf : WFacts proj rank) (nr : NoReexpFacts proj) {pm : St → Nat → St}
     (hpm : PmOk proj pm) {mod : Nat} :
     ∀ (st : Stmt) (ctx : Nat) (s : St) (S : Site) (full : List Stmt), PdInv proj s → Ctx proj s mod ctx S full →
       st ∈ full → (visitStmt pm mod ctx st s).bad = false →
@@ -2606,16 +2620,16 @@ theorem visitStmt_ok {proj : Project} {rank : List Nat} (wf : WFacts proj rank) 
   | .importMod t a, ctx, s, S, full, hI, hc, hst, _ => by
     simp only [visitStmt]; exact visitImport_ok wf hI hc hst
   | .importFrom lvl M n a, ctx, s, S, full, hI, hc, hst, hb => by
-    simp only [visitStmt] at hb ⊢; exact visitImportFrom_ok wf hpm hI hc hst hb
+    simp only [visitStmt] at hb ⊢; exact visitImportFrom_ok wf nr hpm hI hc hst hb
   | .importStar lvl M, ctx, s, S, full, hI, hc, hst, hb => by
     simp only [visitStmt] at hb ⊢
-    obtain ⟨h1, h2⟩ := visitImportStar_ok wf hpm hI hc hst hb
+    obtain ⟨h1, h2⟩ := visitImportStar_ok wf nr hpm hI hc hst hb
     exact ⟨h1, h2, by simp [CompleteStmt]⟩
   | .classDef n bs body, ctx, s, S, full, hI, hc, hst, hb => by
     simp only [visitStmt] at hb ⊢
     have hb1 := visitStmts_bad hpm.1 body _ _ hb
     obtain ⟨hI1, he1, hc1, ⟨po, hpo, hd⟩⟩ := enterClass_ok wf hI hc hst hb1
-    obtain ⟨hI2, he2, hcomp⟩ := visitStmts_ok wf hpm body _ _ _ body hI1 hc1 (fun _ h => h) hb
+    obtain ⟨hI2, he2, hcomp⟩ := visitStmts_ok wf nr hpm body _ _ _ body hI1 hc1 (fun _ h => h) hb
     refine ⟨hI2, he1.trans he2, ?_⟩
     simp only [CompleteStmt]
     obtain ⟨po', hpo', _, hcc, _⟩ := he2.objs ctx po hpo
@@ -2631,7 +2645,7 @@ theorem visitStmt_ok {proj : Project} {rank : List Nat} (wf : WFacts proj rank) 
     simp only [visitStmt] at hb ⊢; exact visitAssign_ok wf hI hc hst hb
   | .allAssign l, ctx, s, S, full, hI, _, _, _ => by
     simp only [visitStmt]; exact ⟨hI, Ext.refl s, by simp [CompleteStmt]⟩
-theorem visitStmts_ok {proj : Project} {rank : List Nat} (wf : WFacts proj rank) {pm : St → Nat → St}
+theorem visitStmts_ok {proj : Project} {rank : List Nat} (wf : WFacts proj rank) (nr : NoReexpFacts proj) {pm : St → Nat → St}
     (hpm : PmOk proj pm) {mod : Nat} :
     ∀ (sts : List Stmt) (ctx : Nat) (s : St) (S : Site) (full : List Stmt), PdInv proj s → Ctx proj s mod ctx S full →
       (∀ st ∈ sts, st ∈ full) → (visitStmts pm mod ctx sts s).bad = false →
@@ -2642,8 +2656,8 @@ theorem visitStmts_ok {proj : Project} {rank : List Nat} (wf : WFacts proj rank)
   | st :: rest, ctx, s, S, full, hI, hc, hsub, hb => by
     simp only [visitStmts] at hb ⊢
     have hb1 := visitStmts_bad hpm.1 rest _ _ hb
-    obtain ⟨hI1, he1, hc1⟩ := visitStmt_ok wf hpm st ctx s S full hI hc (hsub st (List.mem_cons_self ..)) hb1
-    obtain ⟨hI2, he2, hc2⟩ := visitStmts_ok wf hpm rest ctx _ S full hI1 (hc.ext he1)
+    obtain ⟨hI1, he1, hc1⟩ := visitStmt_ok wf nr hpm st ctx s S full hI hc (hsub st (List.mem_cons_self ..)) hb1
+    obtain ⟨hI2, he2, hc2⟩ := visitStmts_ok wf nr hpm rest ctx _ S full hI1 (hc.ext he1)
       (fun x hx => hsub x (List.mem_cons_of_mem _ hx)) hb
     exact ⟨hI2, he1.trans he2, by simp only [CompleteStmts]; exact ⟨CompleteStmt.ext he2 st hc1, hc2⟩⟩
 end
@@ -2678,13 +2692,13 @@ theorem lastAll_sub : ∀ (body : List Stmt) (l : List Name), lastAll body = som
       | some l' => simp only [hr, Option.some.injEq] at h; subst h; exact Or.inr (lastAll_sub rest _ hr x hx)
     | _ => simp only [lastAll, allNames] at h ⊢; exact lastAll_sub rest l h x hx
 
-theorem processModule_ok {proj : Project} {rank : List Nat} (wf : WFacts proj rank) :
+theorem processModule_ok {proj : Project} {rank : List Nat} (wf : WFacts proj rank) (nr : NoReexpFacts proj) :
     ∀ f, PmOk proj (processModule proj f)
   | 0 => ⟨processModule_sticky proj 0, fun s t h => by simp [processModule] at h⟩
   | f+1 => by
     refine ⟨processModule_sticky proj (f+1), ?_⟩
     intro s m hb hI hm
-    have ih := processModule_ok wf f
+    have ih := processModule_ok wf nr f
     simp only [processModule] at hb ⊢
     by_cases hu : getPs s m = .unprocessed
     · have hne : ¬ (getPs s m ≠ .unprocessed) := by simp [hu]
@@ -2738,7 +2752,7 @@ theorem processModule_ok {proj : Project} {rank : List Nat} (wf : WFacts proj ra
           ctxmod := fun _ => rfl
           ps := by rw [hps2]; simp }
       have hb3 : (visitStmts (processModule proj f) m m proj[m].body s2).bad = false := hb
-      obtain ⟨hI3, he3, hcomp⟩ := visitStmts_ok wf ih proj[m].body m s2 (m, []) proj[m].body hI2 hc2 (fun _ h => h) hb3
+      obtain ⟨hI3, he3, hcomp⟩ := visitStmts_ok wf nr ih proj[m].body m s2 (m, []) proj[m].body hI2 hc2 (fun _ h => h) hb3
       generalize hs3 : visitStmts (processModule proj f) m m proj[m].body s2 = s3 at hb hI3 he3 hcomp ⊢
       have hm3 : m < s3.ps.length := by rw [hI3.lens.1]; exact hm
       have hps4 : ∀ t, getPs { s3 with ps := s3.ps.set m .processed } t = if t = m then .processed else getPs s3 t :=
@@ -3030,7 +3044,7 @@ theorem process_bad {proj : Project} : ∀ (order : List Nat) (s : St), (process
     · exact processModule_sticky proj _ _ _ this
     · exact this
 
-theorem process_ok {proj : Project} {rank : List Nat} (wf : WFacts proj rank) :
+theorem process_ok {proj : Project} {rank : List Nat} (wf : WFacts proj rank) (nr : NoReexpFacts proj) :
     ∀ (order : List Nat) (s : St), PdInv proj s → NoProcessing s → (process proj order s).bad = false →
       PdInv proj (process proj order s) ∧ NoProcessing (process proj order s) ∧
       (∀ m, getPs s m = .processed → getPs (process proj order s) m = .processed) ∧
@@ -3046,16 +3060,16 @@ theorem process_ok {proj : Project} {rank : List Nat} (wf : WFacts proj rank) :
         unfold getPs at hu
         rw [List.getD_eq_getElem?_getD, List.getElem?_eq_none (by rw [hI.lens.1]; exact hge)] at hu
         cases hu
-      obtain ⟨hI1, he1, hdone⟩ := (processModule_ok wf (proj.length + 1)).2 s m hb1 hI hm
+      obtain ⟨hI1, he1, hdone⟩ := (processModule_ok wf nr (proj.length + 1)).2 s m hb1 hI hm
       have hn1 := hn.rel he1.ps
-      obtain ⟨hI2, hn2, hkeep, hord⟩ := process_ok wf rest _ hI1 hn1 hb
+      obtain ⟨hI2, hn2, hkeep, hord⟩ := process_ok wf nr rest _ hI1 hn1 hb
       refine ⟨hI2, hn2, fun t ht => hkeep t ((he1.ps t).2.1 ht), ?_⟩
       intro t ht
       rcases List.mem_cons.1 ht with rfl | ht'
       · exact hkeep t hdone
       · exact hord t ht'
     · simp only [hu, if_false] at hb hb1 ⊢
-      obtain ⟨hI2, hn2, hkeep, hord⟩ := process_ok wf rest _ hI hn hb
+      obtain ⟨hI2, hn2, hkeep, hord⟩ := process_ok wf nr rest _ hI hn hb
       refine ⟨hI2, hn2, hkeep, ?_⟩
       intro t ht
       rcases List.mem_cons.1 ht with rfl | ht'
@@ -3066,14 +3080,14 @@ theorem process_ok {proj : Project} {rank : List Nat} (wf : WFacts proj rank) :
         | unprocessed => exact absurd hp hu
       · exact hord t ht'
 
-theorem run_ok {proj : Project} {rank : List Nat} (wf : WFacts proj rank) (order : List Nat)
+theorem run_ok {proj : Project} {rank : List Nat} (wf : WFacts proj rank) (nr : NoReexpFacts proj) (order : List Nat)
     (hb : (run proj order).bad = false) :
     PdInv proj (run proj order) ∧ NoProcessing (run proj order) ∧
     ∀ m ∈ order, getPs (run proj order) m = .processed := by
   unfold run at hb ⊢
   have hb0 := process_bad order _ hb
   obtain ⟨_, hI0, hn0⟩ := initSt_ok wf
-  obtain ⟨h1, h2, _, h4⟩ := process_ok wf order _ hI0 hn0 hb
+  obtain ⟨h1, h2, _, h4⟩ := process_ok wf nr order _ hI0 hn0 hb
   exact ⟨h1, h2, h4⟩
 
 /-! ## name resolution on a finished state -/
